@@ -390,6 +390,8 @@ class Body:
                 return ("fn", op["fn"])
             if "v" in op:
                 return ("const", op["v"], op["ty"])
+            if "static" in op:
+                return ("static", strip_generics(op["static"]))
             if "named" in op:
                 v = self.facts.consts.get(op["named"], {}).get("v")
                 if v is not None:
@@ -643,7 +645,7 @@ def show(e):
         return "fn " + short(e[1])
     if k == "cstr":
         return e[1]
-    if k == "named":
+    if k == "named" or k == "static":
         return e[1]
     if k == "variant":
         return "%s is %s" % (show(e[1]), e[2])
